@@ -474,17 +474,20 @@ Definition owned_children (sa : astate) : list N :=
 
 (* F5 (PendingTermAtTeardown): a Prep actor left with held calls.
    F7 (PendingTermChildCycle): an unterminated actor owning a child whose notifier refers back to it. *)
+Definition class_flag (all : list (N * actor)) (p : N * actor) : option ev :=
+  let a := fst p in let x := snd p in
+  if a_freed x then None else
+  match a_state x with
+  | SPrep (_ :: _) => Some (EModel M_PREPHELD a)
+  | SReady _ _ _ =>
+      if existsb (child_refs all a) (owned_children (a_state x)) then Some (EModel M_CHILDCYCLE a) else None
+  | _ => None
+  end.
+
+Definition emit_opt (s : st) (o : option ev) : st := match o with Some e => emit s e | None => s end.
+
 Definition class_flags (s : st) : st :=
-  fold_left (fun s0 p =>
-               let a := fst p in let x := snd p in
-               if a_freed x then s0 else
-               match a_state x with
-               | SPrep (_ :: _) => emit s0 (EModel M_PREPHELD a)
-               | SReady _ _ _ =>
-                   if existsb (child_refs (actors s) a) (owned_children (a_state x))
-                   then emit s0 (EModel M_CHILDCYCLE a) else s0
-               | _ => s0
-               end) (actors s) s.
+  fold_left (fun s0 p => emit_opt s0 (class_flag (actors s) p)) (actors s) s.
 
 (* ------------------------------------------------------------------ *)
 (** * Acts *)
@@ -1062,7 +1065,7 @@ Definition handle (m : mop) (s : st) : list mop * st :=
                 end
             end in
           (drops (f_loc fr) ++ tail, s1)
-      | [] => ([], emit s (EBad 60))
+      | [] => ([], emit (emit s (EBad 60)) (EEnd uid))   (* unreachable: every body has its frame *)
       end
   | MRunItem ci => run_item ci s
   | MDropItem ci => drop_item ci s
